@@ -28,13 +28,21 @@ func (p *Path) unop(ins *ssa.UnOp, x Value) Value {
 		switch x := x.(type) {
 		case *Term:
 			if x.sort.K == KInt {
-				return tb.INeg(x)
+				w, signed, _ := intInfo(ins.Type())
+				return p.wrap(tb.INeg(x), w, signed)
 			}
 			return tb.BvNeg(x)
 		case Float:
 			return Float{-x.f}
 		}
 	case token.XOR:
+		if xt := x.(*Term); xt.sort.K == KInt {
+			w, signed, _ := intInfo(ins.Type())
+			if signed {
+				return tb.ISub(tb.INeg(xt), tb.Int(1))
+			}
+			return tb.ISub(tb.IntBig(maskW(w)), xt)
+		}
 		return tb.BvNot(x.(*Term))
 	case token.ARROW:
 		panic(p.unsupported("channel receive"))
@@ -65,6 +73,16 @@ func (p *Path) binop(op token.Token, xt types.Type, x, y Value, yt types.Type) V
 		w, signed, ok := intInfo(xt)
 		if !ok {
 			panic(p.unsupported("binop on non-integer " + xt.String()))
+		}
+		if xv.sort.K == KInt || yv.sort.K == KInt {
+			yw, ysigned, _ := intInfo(yt)
+			if xv.sort.K != KInt {
+				xv = p.int64ToInt(xv, signed)
+			}
+			if yv.sort.K != KInt {
+				yv = p.int64ToInt(yv, ysigned)
+			}
+			return p.intBinop(op, w, signed, xv, yv, yw, ysigned)
 		}
 		switch op {
 		case token.ADD:
@@ -232,12 +250,15 @@ func (p *Path) bytesCompare(a, b []*Term) *Term {
 func (p *Path) conv(dst, src types.Type, x Value) Value {
 	tb := p.tb
 	du, su := dst.Underlying(), src.Underlying()
-	if dw, _, ok := intInfo(du); ok {
+	if dw, dsigned, ok := intInfo(du); ok {
 		switch xv := x.(type) {
 		case *Term:
 			sw, ssigned, ok := intInfo(su)
 			if !ok {
 				break
+			}
+			if xv.sort.K == KInt || p.intW(dw) {
+				return p.intConv(xv, sw, ssigned, dw, dsigned)
 			}
 			switch {
 			case dw == sw:
@@ -250,7 +271,7 @@ func (p *Path) conv(dst, src types.Type, x Value) Value {
 				return tb.Zext(xv, dw-sw)
 			}
 		case Float:
-			return tb.BVI(int64(xv.f), dw)
+			return p.ic(int64(xv.f), dw)
 		}
 	}
 	if isFloat(du) {
@@ -265,6 +286,10 @@ func (p *Path) conv(dst, src types.Type, x Value) Value {
 				panic(p.unsupported("conversion of symbolic integer to float"))
 			}
 			_, signed, _ := intInfo(su)
+			if xv.sort.K == KInt {
+				f, _ := new(big.Float).SetInt(xv.val).Float64()
+				return Float{f}
+			}
 			if signed {
 				f, _ := new(big.Float).SetInt(xv.Signed()).Float64()
 				return Float{f}
@@ -289,6 +314,9 @@ func (p *Path) conv(dst, src types.Type, x Value) Value {
 			}
 		case *Term: // string(rune)
 			if xv.IsConst() {
+				if xv.sort.K == KInt {
+					return p.strConst(string(rune(xv.val.Int64())))
+				}
 				return p.strConst(string(rune(xv.Signed().Int64())))
 			}
 		}
@@ -316,7 +344,7 @@ func (p *Path) conv(dst, src types.Type, x Value) Value {
 				if ok {
 					var s Slice
 					for _, r := range str {
-						s = append(s, tb.BVI(int64(r), 32))
+						s = append(s, p.ic(int64(r), 32))
 					}
 					return s
 				}
